@@ -247,3 +247,14 @@ def fn_reshape_roundtrip(x):
 @onnx_function
 def fn_same_dtype_cast(x):
     return x.astype(x.dtype)
+
+
+# C08: a dtype-polymorphic function body (valid for float and integer operands alike)
+@onnx_function
+def fn_poly_square(x):
+    return x * x + x
+
+
+@onnx_function(unique=True)
+def fn_poly_square_unique(x):
+    return x * x + x
